@@ -34,6 +34,7 @@ func knownCases() map[string]knownCase {
 		"binary-body-text":    {want: "body.text", c: Case{Svc: Svc{Echo: []string{"body"}, Out: "text"}, Req: Req{Method: "PUT", Headers: txt, Body: []byte("caf\xe9"), HasBody: true}}},
 		"binary-body-count":   {want: "body.bytes", c: Case{Svc: Svc{Echo: []string{"bodysum"}, Out: "text"}, Req: Req{Method: "PUT", Headers: txt, Body: []byte("caf\xe9"), HasBody: true}}},
 		"binary-body-json":    {want: "json field body", c: Case{Svc: Svc{Lib: "echo-post"}, Req: Req{Method: "POST", Headers: txt, Body: []byte("caf\xe9"), HasBody: true}}},
+		"binary-body-value":   {want: "only in escaping", c: Case{Svc: Svc{Echo: []string{"body"}, Out: "value"}, Req: Req{Method: "PUT", Headers: js, Body: []byte("caf\xe9"), HasBody: true}}},
 		"header-add-panic":    {want: "handler panic", c: Case{Svc: Svc{Echo: []string{"method"}, Out: "text", HOps: []HOp{{Op: "add", Name: "X-Frame-Options", Value: "SAMEORIGIN"}}}, Req: Req{Method: "GET", Headers: txt}}},
 		"runtime-error-msg":   {want: "division by zero", c: Case{Svc: Svc{Echo: []string{"method"}, Out: "none", HOps: []HOp{{Op: "set", Name: "Content-Type", Value: "application/json"}}, Tail: "diverr"}, Req: Req{Method: "GET", Headers: txt}}},
 		"exit-msg":            {want: `", N"`, c: Case{Svc: Svc{Echo: []string{"method"}, Out: "none", HOps: []HOp{{Op: "set", Name: "Content-Type", Value: "application/json"}}, Tail: "exit"}, Req: Req{Method: "GET", Headers: txt}}},
@@ -61,6 +62,9 @@ func TestMkReplay(t *testing.T) {
 	}
 	sort.Strings(names)
 	for _, n := range names {
+		if only := os.Getenv("C41_MKREPLAY"); only != "1" && only != n {
+			continue
+		}
 		c := cs[n].c
 		out, _ := evaluate(c, cs[n].want)
 		if out.Fail == nil {
